@@ -52,6 +52,14 @@ def parseKV (text : Bytes) : List (Bytes × Bytes) :=
 
 def showB (b : Bytes) : String := String.ofList (b.map (fun x => Char.ofNat x.toNat))
 
+/-- the continuation lines differ only where the configuration has a line that is exactly "." and the
+    control data reads a blank line: " ." is the format's blank-line marker, so such a line cannot be
+    expressed (known finding C02-dot-line-in-description) -/
+def onlyDotLines : List Bytes → List Bytes → Bool
+  | [], [] => true
+  | g :: gs, w :: ws => (g == w || (w == [dot] && g == [])) && onlyDotLines gs ws
+  | _, _ => false
+
 /-- compare parsed fields with the expected ones: first difference, as a clause -/
 def diffFields : List Field → List Field → List String
   | [], [] => []
@@ -62,6 +70,7 @@ def diffFields : List Field → List Field → List String
     else if a.key ≠ b.key then
       (if bs.any (·.key == a.key) then [s!"missing-field:{showB b.key}"] else [s!"unexpected-field:{showB a.key}"])
     else if a.first ≠ b.first then [s!"field-value-differs:{showB a.key}"]
+    else if onlyDotLines a.conts b.conts then [s!"dot-line-read-as-blank:{showB a.key}"]
     else [s!"field-continuation-differs:{showB a.key}"]
 
 def diffKV : List (Bytes × Bytes) → List (Bytes × Bytes) → List String
